@@ -684,16 +684,18 @@ fn c10_body<const N: usize, const M: usize, const NM: usize>(lines: u32, cols: u
         }
         co += 1;
     }
-    // the statement as given: exactly one token per NON-EMPTY overlap
-    assert!(matched, "C10/one-token-per-non-empty-overlap");
-    // the same, restricted to inputs where no two tokens of a side share a start (the
-    // recorded finding F12 needs such a pair, so this label must hold everywhere)
-    assert!(matched || dup_o || dup_a, "C10/exact-composition-when-starts-are-distinct");
-    // weaker envelope (holds also on trees with known finding F12): every required token
-    // is present, and every token present is an overlap start moved by the adjustment
-    // token's displacement carrying the original token's data (tokens sharing a start
-    // may each contribute)
+    // NOTE on order: a Kani assert is followed by an implicit assume of its condition, so
+    // the weaker statements come first and the statement with a recorded finding last.
+    // (1) envelope, holds also on trees with known finding F12: every required token is
+    // present, and every token present is an overlap start moved by the adjustment token's
+    // displacement carrying the original token's data (tokens sharing a start may each
+    // contribute)
     assert!(bounded, "C10/tokens-are-overlap-starts-moved-by-displacement");
+    // (2) the statement as given, restricted to inputs where no two tokens of a side share
+    // a start (F12 needs such a pair, so this label must hold everywhere)
+    assert!(matched || dup_o || dup_a, "C10/exact-composition-when-starts-are-distinct");
+    // (3) the statement as given: exactly one token per NON-EMPTY overlap
+    assert!(matched, "C10/one-token-per-non-empty-overlap");
     kani::cover!(got_n == N * M && N * M > 1, "every pair overlaps");
     kani::cover!(got_n == 0, "no overlap");
     if N == 2 {
